@@ -36,21 +36,25 @@ ASSUMPTIONS = [
     "completeness is only claimed for solutions strictly inside margin/VCO/PFD windows by 1e-8, so float rounding cannot decide",
     "input frequencies are drawn inside clkin_freq_range / clki_freq_range where the class declares one; output requests outside a "
     "declared clko_freq_range are legal 'refusals at registration' when the helper asserts on them",
-    "Gowin GW1N/GW2A completeness: brute force for single-output requests; for several outputs the same set is re-submitted in "
-    "descending frequency order (a refusal that depends on the order of create_clkout calls is a refusal although a solution exists)",
+    "Gowin GW1N/GW2A completeness for several outputs with phase 0: brute force over (IDIV, FBDIV, ODIV) and injective assignments to "
+    "CLKOUT/CLKOUTP (x1), CLKOUTD3 (/3), CLKOUTD (/even), restricted to settings in which the fastest request sits on CLKOUT/CLKOUTP "
+    "(the shape the helper itself aims at)",
+    "Gowin GW1N/GW2A completeness: brute force for single-output requests; for several outputs with phases the same frequencies are re-submitted "
+    "in descending order with every margin tightened to the smallest one: if the helper accepts that stricter request (contracts on), "
+    "a setting for the refused request exists",
     "Efinix: a stub platform (interface-writer block list, iface IOs, PLL resources) stands in for EfinixPlatform, which needs the "
     "vendor tool's device database; TITANIUMPLL computes nothing in LiteX and is not judged. GateMate CC_PLL has no divider search "
     "in LiteX: only the emitted REF_CLK/OUT_CLK/DOUB parameters and the wiring are judged",
     "phases: equality with the request where the primitive takes degrees (Xilinx); within one hardware step for ECP5; Intel within 1 ps",
 ]
 FLOORS = {
-    "quick": {"requests": 2500, "contract_config_meets_request": 1500, "contract_config_inside_declared_ranges": 1500,
-              "contract_instance_realises_config": 1200, "configs_accepted": 1200, "refusals_crosschecked": 150,
-              "refusals_confirmed_no_solution": 100, "n_helpers_with_config": 18, "n_helpers_with_refusal": 10, "n_boundary_kinds": 12,
+    "quick": {"requests": 1500, "contract_config_meets_request": 900, "contract_config_inside_declared_ranges": 900,
+              "contract_instance_realises_config": 900, "configs_accepted": 900, "refusals_crosschecked": 200,
+              "refusals_confirmed_no_solution": 150, "n_helpers_with_config": 18, "n_helpers_with_refusal": 10, "n_boundary_kinds": 12,
               "test_clock_tests_run": 15, "test_clock_contract_evaluations": 20},
-    "thorough": {"requests": 30000, "contract_config_meets_request": 18000, "contract_config_inside_declared_ranges": 18000,
-                 "contract_instance_realises_config": 15000, "configs_accepted": 15000, "refusals_crosschecked": 2000,
-                 "refusals_confirmed_no_solution": 1200, "n_helpers_with_config": 18, "n_helpers_with_refusal": 12, "n_boundary_kinds": 14,
+    "thorough": {"requests": 18000, "contract_config_meets_request": 11000, "contract_config_inside_declared_ranges": 11000,
+                 "contract_instance_realises_config": 11000, "configs_accepted": 11000, "refusals_crosschecked": 2500,
+                 "refusals_confirmed_no_solution": 2000, "n_helpers_with_config": 18, "n_helpers_with_refusal": 12, "n_boundary_kinds": 14,
                  "test_clock_tests_run": 15, "test_clock_contract_evaluations": 20},
 }
 SHARD_TIMEOUT = {"quick": 900, "thorough": 3000}
@@ -64,7 +68,7 @@ N_CASES = {
     "CycloneIVPLL": (40, 400), "CycloneVPLL": (40, 400), "Cyclone10LPPLL": (40, 400), "Max10PLL": (40, 400),
     "GW1NPLL": (200, 2400), "GW2APLL": (120, 1400), "GW5APLL": (16, 160), "TRIONPLL": (100, 1200), "GateMatePLL": (60, 700),
 }
-N_SHARDS = {"quick": 32, "thorough": 96}
+N_SHARDS = {"quick": 48, "thorough": 128}
 
 
 def plan(tier, seed):
@@ -306,7 +310,12 @@ def gen_request(col, name, rng):
     probe.clkin_freq = clkin
     fam = mon.family(probe)
     desc = mon.describe(probe, nouts=k) if fam not in ("GW1NPLL",) else None
-    mode = rng.choices(["achievable", "round", "random", "vco-edge"], [5, 3, 2, 1] if fam != "GW1NPLL" else [8, 1, 1, 0])[0]
+    weights = [5, 3, 2, 1]
+    if fam == "GW1NPLL":
+        weights = [8, 1, 1, 0]
+    if name == "USPMMCM":
+        weights = [12, 1, 1, 1]             # every refusal of this helper costs seconds (its scan rebuilds 1000-entry lists): keep them rare
+    mode = rng.choices(["achievable", "round", "random", "vco-edge"], weights)[0]
     setting = None
     if fam == "ECP5PLL":
         # pfd*P with P = clkfb_div * feedback divider
@@ -339,6 +348,7 @@ def gen_request(col, name, rng):
         setting = (None, None, vco)
         mode = "achievable"
     outs = []
+    gw_roles = None
     base_phase = rng.choice([0, 0, 0, 90, 180])
     lo_out, hi_out = getattr(probe, "clko_freq_range", (3e6, 800e6))
     lo_out = max(lo_out, 1e6)
@@ -347,7 +357,13 @@ def gen_request(col, name, rng):
         if mode == "achievable":
             vco = setting[2]
             if fam == "GW1NPLL":
-                f = vco/rng.choice([1, 1, 1, 3, 2, 4, 8, 10, 128] if i else [1])
+                if i == 0:
+                    gw_roles = rng.sample(["CLKOUT", "CLKOUTP", "CLKOUTD3", "CLKOUTD"], k) if rng.random() < 0.75 else None
+                if gw_roles is not None:
+                    role = gw_roles[i]
+                    f = vco/{"CLKOUT": 1, "CLKOUTP": 1, "CLKOUTD3": 3, "CLKOUTD": rng.choice([2, 4, 6, 8, 10, 16, 64, 128])}[role]
+                else:
+                    f = vco/rng.choice([1, 1, 1, 3, 2, 4, 8, 10, 128] if i else [1])
             elif fam == "ECP5PLL":
                 f = vco/rng.randint(1, 128)
             else:
@@ -377,8 +393,11 @@ def gen_request(col, name, rng):
         ph = rng.choice([0, 0, 0, 0, base_phase, 90, 180, 270, 45, 22.5, rng.randint(0, 359)])
         if fam == "iCE40PLL" or (fam == "GW5APLL" and rng.random() < 0.7):
             ph = 0
-        if fam == "GW1NPLL" and ph not in (0, base_phase):
-            ph = base_phase
+        if fam == "GW1NPLL":
+            if ph not in (0, base_phase):
+                ph = base_phase
+            if mode == "achievable" and gw_roles is not None:
+                ph = (base_phase or 90) if (gw_roles[i] == "CLKOUTP" and rng.random() < 0.5) else 0
         if rng.random() < 0.08:
             decl = getattr(probe, "clko_freq_range", None)
             if decl and min(decl) > 0:
@@ -514,7 +533,7 @@ def run_request(col, case, req):
         return
     if computed and name not in ("TRIONPLL",):
         # compute_config returned (and passed its contracts) but do_finalize raised afterwards
-        col.violation("%s/finalize-crashed-after-config-found-%s" % (name.lower(), kind), witcase,
+        col.violation("%s/finalize-crashed-after-config-found-%s" % (mon.hname(pll), kind), witcase,
                       "compute_config found a configuration, then do_finalize raised %s: %s" % (kind, str(exc)[:200]),
                       {"request": req, "config": mon._cfg_view(mon.LAST.get("config")) if mon.LAST.get("config") is not None else None})
         col.case_done(case, True, digest=req, sample=None)
@@ -539,9 +558,10 @@ def run_request(col, case, req):
                       "outcome": "refused: %s(%s)" % (kind, str(exc)[:60]), "independent_search": "no solution (%s)" % how}
         col.case_done(case, True, digest=req, sample=sample)
         return
-    key = "%s/refused-but-solution-exists" % name.lower() if documented else "%s/crashed-%s-but-solution-exists" % (name.lower(), kind)
+    hn = mon.hname(pll)
+    key = "%s/refused-but-solution-exists" % hn if documented else "%s/crashed-%s-but-solution-exists" % (hn, kind)
     if how == "reordered":
-        key = "%s/refusal-depends-on-request-order" % name.lower()
+        key = "%s/refused-but-stricter-reordered-request-accepted" % hn
     col.violation(key, witcase, "helper raised %s(%s) although a setting inside the declared ranges meets the request (%s)"
                   % (kind, str(exc)[:80], how), {"request": req, "solution": sol, "found_by": how})
     col.case_done(case, True, digest=req, sample=None)
@@ -573,9 +593,13 @@ def cross_check(col, name, pll, req):
     if fam == "GW1NPLL":
         if len(desc["outs"]) == 1:
             return mon.gowin_solve_single(desc), "brute-force"
-        # several outputs: same set, descending frequency order, fresh helper, contracts on
+        if all(p == 0 for f, p, m in desc["outs"]):
+            return mon.gowin_solve_multi(desc), "brute-force"
+        # several outputs: the same frequencies in descending order, every margin tightened to the smallest one (a STRICTER request),
+        # fresh helper, contracts on: if that is accepted, a setting for the original request exists
         req2 = dict(req)
-        req2["outs"] = sorted(req["outs"], key=lambda o: -o["freq"])
+        mmin = min(o["margin"] for o in req["outs"])
+        req2["outs"] = [dict(o, margin=mmin) for o in sorted(req["outs"], key=lambda o: -o["freq"])]
         if req2["outs"] == req["outs"]:
             return None, None
         n0 = len(mon.VIOLATIONS)
@@ -585,7 +609,7 @@ def cross_check(col, name, pll, req):
             del mon.VIOLATIONS[n0:]
             return None, None
         if exc2 is None:
-            return {"accepted_order": req2["outs"], "config": mon._cfg_view(mon.LAST.get("config"))}, "reordered"
+            return {"accepted_stricter_request": req2["outs"], "config": mon._cfg_view(mon.LAST.get("config"))}, "reordered"
         return None, None
     sol = model.generic_solve(desc)
     if sol is not None and sol.get("gave_up"):
